@@ -2,6 +2,7 @@ import DhcpProofs.Lemmas.V6BuildReply
 import DhcpProofs.Lemmas.V6BuildMsg
 import DhcpProofs.Lemmas.V6BuildDecoded
 import DhcpProofs.Lemmas.V6BuildIndex
+import DhcpProofs.Lemmas.V6BuildMods
 /-
   C16 — DHCPv6 builders and relay encapsulation preserve identity and nesting.
   Model: Dhcp/V6/Build.lean (EncapsulateRelay, DecapsulateRelay,
@@ -379,6 +380,199 @@ theorem C16_modifiers (m : Msg6) (xid : Bytes) (mods : List Mod6) :
         | none => rfl
         | some cid => exact applyMods_append _ pre mods
 
+/-! ### the option-list operations and the modifiers built on them -/
+
+/-- **C16 (`UpdateOption`, both `*Message` and `*RelayMessage`; `Options.Update`).**
+The header is kept.  When no option carries the new option's code it is
+APPENDED; otherwise exactly the FIRST option of that code is replaced in place
+and everything else — later options of the same code included — stays where it
+was.  Consequently the first option of that code afterwards is the new one,
+the options of every other code are untouched, and the length grows by one
+exactly when the code was absent. -/
+theorem C16_update (m : Msg6) (o : Opt6) :
+    (m.updateOption o).typ = m.typ ∧ (m.updateOption o).isRelay = m.isRelay ∧
+    (m.updateOption o).opts = update o m.opts ∧
+    (getOne o.code m.opts = none → update o m.opts = m.opts ++ [o]) ∧
+    (∀ pre x post, m.opts = pre ++ x :: post → (∀ y ∈ pre, y.code ≠ o.code) → x.code = o.code →
+      update o m.opts = pre ++ o :: post) ∧
+    getOne o.code (update o m.opts) = some o ∧
+    get o.code (update o m.opts) = o :: (get o.code m.opts).tail ∧
+    (∀ c, o.code ≠ c → get c (update o m.opts) = get c m.opts) ∧
+    (update o m.opts).length = if (getOne o.code m.opts).isSome then m.opts.length else m.opts.length + 1 := by
+  rw [updateOption_eq]
+  refine ⟨by simp, by simp, by simp, update_of_getOne_none, ?_, getOne_update_self _ _,
+    get_update_self _ _, fun c hc => get_update_other _ _ hc, update_length _ _⟩
+  intro pre x post he hpre hx
+  rw [he]; exact update_split hpre hx
+
+/-- the header fields other than type survive too (stated on the constructors) -/
+theorem C16_update_header (o : Opt6) :
+    (∀ t x os, (Msg6.msg t x os).updateOption o = .msg t x (update o os)) ∧
+    (∀ t h l p os, (Msg6.relay t h l p os).updateOption o = .relay t h l p (update o os)) :=
+  ⟨fun _ _ _ => rfl, fun _ _ _ _ _ => rfl⟩
+
+/-- **C16 (`AddOption`).** The option is appended, whatever is already there. -/
+theorem C16_add (o : Opt6) :
+    (∀ t x os, (Msg6.msg t x os).addOption o = .msg t x (os ++ [o])) ∧
+    (∀ t h l p os, (Msg6.relay t h l p os).addOption o = .relay t h l p (os ++ [o])) :=
+  ⟨fun _ _ _ => rfl, fun _ _ _ _ _ => rfl⟩
+
+/-- **C16 (`Options.Del`).** EVERY option of the code is removed (not only the
+first); the others keep their relative order (the result is a sub-list, and
+the options of every other code are exactly those before); deleting an absent
+code changes nothing; the header is kept. -/
+theorem C16_del (m : Msg6) (c : Nat) :
+    (m.delOption c).typ = m.typ ∧ (m.delOption c).isRelay = m.isRelay ∧
+    (m.delOption c).opts = del c m.opts ∧
+    (∀ o, o ∈ del c m.opts ↔ o ∈ m.opts ∧ o.code ≠ c) ∧
+    getOne c (del c m.opts) = none ∧
+    (∀ d, d ≠ c → get d (del c m.opts) = get d m.opts) ∧
+    (del c m.opts).Sublist m.opts ∧
+    (getOne c m.opts = none → del c m.opts = m.opts) := by
+  rw [delOption_eq]
+  refine ⟨by simp, by simp, by simp, fun o => mem_del, ?_, fun d hd => get_del_other _ hd,
+    del_sublist _ _, del_of_absent⟩
+  rw [← get_head?, get_del_self]; rfl
+
+/-- `Update` after `Del` of the same code appends; `Del` after `Update` removes
+the new option together with every other one of its code -/
+theorem C16_del_update (o : Opt6) (os : List Opt6) :
+    update o (del o.code os) = del o.code os ++ [o] ∧ del o.code (update o os) = del o.code os := by
+  constructor
+  · apply update_of_getOne_none
+    rw [← get_head?, get_del_self]; rfl
+  · cases h : getOne o.code os with
+    | none =>
+      rw [update_of_getOne_none h, del_append]
+      simp [del]
+    | some x =>
+      obtain ⟨pre, post, rfl, hpre, hx⟩ := getOne_split h
+      rw [update_split hpre hx, del_append, del_append]
+      simp [del, hx]
+
+/-- **C16 (`WithFQDN`, `WithDomainSearchList`).** Both work on messages and on
+relay messages alike: the option — holding a FRESH label set (`original` nil)
+with the given name(s), in the given order — goes through `UpdateOption`, so
+`C16_update` says where it lands; afterwards it is the first option of its code. -/
+theorem C16_mod_names (m : Msg6) (f : UInt8) (name : Bytes) (names : List Bytes) :
+    applyMod m (.fqdn f name) = .ok (m.updateOption (.fqdn f ⟨none, [name]⟩)) ∧
+    applyMod m (.domainSearchList names) = .ok (m.updateOption (.domainSearch ⟨none, names⟩)) ∧
+    getOne ocFQDN (m.updateOption (.fqdn f ⟨none, [name]⟩)).opts = some (.fqdn f ⟨none, [name]⟩) ∧
+    getOne ocDomainSearchList (m.updateOption (.domainSearch ⟨none, names⟩)).opts =
+      some (.domainSearch ⟨none, names⟩) := by
+  refine ⟨rfl, rfl, ?_, ?_⟩
+  · rw [updateOption_eq, withOpts_opts]; exact getOne_update_self (.fqdn f ⟨none, [name]⟩) _
+  · rw [updateOption_eq, withOpts_opts]; exact getOne_update_self (.domainSearch ⟨none, names⟩) _
+
+/-- **C16 (`WithIANA`).** On a relay message nothing happens.  On a message whose
+code-3 options are all `*OptIANA` (always so after decoding): with no IA_NA a
+new one — IAID 00000000, T1 = T2 = 0 — holding exactly the given addresses is
+APPENDED; otherwise the given addresses are appended, in order, to the
+sub-options of the FIRST IA_NA, which keeps its place, IAID, T1, T2 and earlier
+sub-options, and nothing else changes.  An option that carries code 3 without
+being an `*OptIANA` (hand-built only) makes the modifier panic. -/
+theorem C16_mod_ianaAddrs (t : UInt8) (xid : Bytes) (os : List Opt6) (addrs : List IAAddr) :
+    (∀ h l p, applyMod (.relay t h l p os) (.ianaAddrs addrs) = .ok (.relay t h l p os)) ∧
+    (IANATyped os → getOne ocIANA os = none →
+      applyMod (.msg t xid os) (.ianaAddrs addrs) =
+        .ok (.msg t xid (os ++ [.iana (zeros 4) 0 0 (addrs.map IAAddr.toOpt)]))) ∧
+    (∀ pre id t1 t2 sub post, IANATyped os → os = pre ++ .iana id t1 t2 sub :: post →
+      (∀ y ∈ pre, y.code ≠ ocIANA) →
+      applyMod (.msg t xid os) (.ianaAddrs addrs) =
+        .ok (.msg t xid (pre ++ .iana id t1 t2 (sub ++ addrs.map IAAddr.toOpt) :: post))) ∧
+    (¬ IANATyped os → applyMod (.msg t xid os) (.ianaAddrs addrs) = .panic) := by
+  refine ⟨fun _ _ _ => rfl, ?_, ?_, ?_⟩
+  · intro hty hn
+    simp only [applyMod, oneIANAOf_typed hty, hn, Msg6.updateOption]
+    rw [update_of_getOne_none (o := .iana (zeros 4) 0 0 _) hn]
+  · intro pre id t1 t2 sub post hty he hpre
+    have hg : getOne ocIANA os = some (.iana id t1 t2 sub) := by
+      rw [he]; exact getOne_of_split hpre rfl
+    simp only [applyMod, oneIANAOf_typed hty, hg, Msg6.updateOption]
+    rw [he, update_split (o := .iana id t1 t2 (sub ++ addrs.map IAAddr.toOpt)) (x := .iana id t1 t2 sub) hpre rfl]
+  · intro hty
+    simp only [applyMod, oneIANAOf_untyped hty]
+
+/-- **C16 (`WithIATA`).** As `WithIANA` for the IA_TA code (4), and the IAID of
+the (first or new) IA_TA is SET to the given one (`copy` into the 4-byte array). -/
+theorem C16_mod_iata (t : UInt8) (xid : Bytes) (os : List Opt6) (id : Bytes) (addrs : List IAAddr) :
+    (∀ h l p, applyMod (.relay t h l p os) (.iata id addrs) = .ok (.relay t h l p os)) ∧
+    (CodeTyped ocIATA Opt6.isIATA os → getOne ocIATA os = none →
+      applyMod (.msg t xid os) (.iata id addrs) =
+        .ok (.msg t xid (os ++ [.iata (copyInto 4 id) (addrs.map IAAddr.toOpt)]))) ∧
+    (∀ pre id0 sub post, CodeTyped ocIATA Opt6.isIATA os → os = pre ++ .iata id0 sub :: post →
+      (∀ y ∈ pre, y.code ≠ ocIATA) →
+      applyMod (.msg t xid os) (.iata id addrs) =
+        .ok (.msg t xid (pre ++ .iata (copyInto 4 id) (sub ++ addrs.map IAAddr.toOpt) :: post))) ∧
+    (¬ CodeTyped ocIATA Opt6.isIATA os → applyMod (.msg t xid os) (.iata id addrs) = .panic) := by
+  refine ⟨fun _ _ _ => rfl, ?_, ?_, ?_⟩
+  · intro hty hn
+    simp only [applyMod, oneIATAOf_typed hty, hn, Msg6.updateOption]
+    rw [update_of_getOne_none (o := .iata _ _) hn]
+  · intro pre id0 sub post hty he hpre
+    have hg : getOne ocIATA os = some (.iata id0 sub) := by
+      rw [he]; exact getOne_of_split hpre rfl
+    simp only [applyMod, oneIATAOf_typed hty, hg, Msg6.updateOption]
+    rw [he, update_split (o := .iata (copyInto 4 id) (sub ++ addrs.map IAAddr.toOpt)) (x := .iata id0 sub) hpre rfl]
+  · intro hty
+    simp only [applyMod, oneIATAOf_untyped hty]
+
+/-- **C16 (`WithIAPD`).** As `WithIATA` for the IA_PD code (25): the prefixes are
+appended to the first IA_PD's sub-options (T1, T2 kept) or to a new IA_PD with
+T1 = T2 = 0, whose IAID is set to the given one. -/
+theorem C16_mod_iapd (t : UInt8) (xid : Bytes) (os : List Opt6) (id : Bytes) (pfxs : List IAPfx) :
+    (∀ h l p, applyMod (.relay t h l p os) (.iapd id pfxs) = .ok (.relay t h l p os)) ∧
+    (CodeTyped ocIAPD Opt6.isIAPD os → getOne ocIAPD os = none →
+      applyMod (.msg t xid os) (.iapd id pfxs) =
+        .ok (.msg t xid (os ++ [.iapd (copyInto 4 id) 0 0 (pfxs.map IAPfx.toOpt)]))) ∧
+    (∀ pre id0 t1 t2 sub post, CodeTyped ocIAPD Opt6.isIAPD os →
+      os = pre ++ .iapd id0 t1 t2 sub :: post → (∀ y ∈ pre, y.code ≠ ocIAPD) →
+      applyMod (.msg t xid os) (.iapd id pfxs) =
+        .ok (.msg t xid (pre ++ .iapd (copyInto 4 id) t1 t2 (sub ++ pfxs.map IAPfx.toOpt) :: post))) ∧
+    (¬ CodeTyped ocIAPD Opt6.isIAPD os → applyMod (.msg t xid os) (.iapd id pfxs) = .panic) := by
+  refine ⟨fun _ _ _ => rfl, ?_, ?_, ?_⟩
+  · intro hty hn
+    simp only [applyMod, oneIAPDOf_typed hty, hn, Msg6.updateOption]
+    rw [update_of_getOne_none (o := .iapd _ _ _ _) hn]
+  · intro pre id0 t1 t2 sub post hty he hpre
+    have hg : getOne ocIAPD os = some (.iapd id0 t1 t2 sub) := by
+      rw [he]; exact getOne_of_split hpre rfl
+    simp only [applyMod, oneIAPDOf_typed hty, hg, Msg6.updateOption]
+    rw [he, update_split (o := .iapd (copyInto 4 id) t1 t2 (sub ++ pfxs.map IAPfx.toOpt)) (x := .iapd id0 t1 t2 sub) hpre rfl]
+  · intro hty
+    simp only [applyMod, oneIAPDOf_untyped hty]
+
+/-- on DECODED messages the three identity-association modifiers never panic
+(the decoder parses codes 3, 4 and 25 into their own option types only) -/
+theorem C16_mod_ia_decoded (b : Bytes) (m : Msg6) (h : dec6 b = .ok m) (id : Bytes)
+    (addrs : List IAAddr) (pfxs : List IAPfx) :
+    applyMod m (.ianaAddrs addrs) ≠ .panic ∧ applyMod m (.iata id addrs) ≠ .panic ∧
+    applyMod m (.iapd id pfxs) ≠ .panic := by
+  obtain ⟨h3, h4, h25⟩ := dec6_iaTyped h
+  cases m with
+  | relay t hc l p os => exact ⟨by simp [applyMod], by simp [applyMod], by simp [applyMod]⟩
+  | msg t x os =>
+    simp only [Msg6.opts] at h3 h4 h25
+    refine ⟨?_, ?_, ?_⟩
+    · simp only [applyMod, oneIANAOf_typed ((IANATyped_iff os).mpr h3)]
+      cases hg : getOne ocIANA os with
+      | none => simp
+      | some x =>
+        have := h3 x (getOne_mem hg) (getOne_code hg)
+        cases x <;> simp [Opt6.isIANA] at this ⊢
+    · simp only [applyMod, oneIATAOf_typed h4]
+      cases hg : getOne ocIATA os with
+      | none => simp
+      | some x =>
+        have := h4 x (getOne_mem hg) (getOne_code hg)
+        cases x <;> simp [Opt6.isIATA] at this ⊢
+    · simp only [applyMod, oneIAPDOf_typed h25]
+      cases hg : getOne ocIAPD os with
+      | none => simp
+      | some x =>
+        have := h25 x (getOne_mem hg) (getOne_code hg)
+        cases x <;> simp [Opt6.isIAPD] at this ⊢
+
 /-! ### non-vacuity -/
 
 section Examples
@@ -431,6 +625,37 @@ example : IANATyped [.clientID (.en 1 []), .serverID (.en 2 []), .iana [0, 0, 0,
   intro o ho hc
   simp at ho
   rcases ho with rfl | rfl | rfl | rfl <;> first | rfl | (simp [Opt6.code, ocIANA] at hc)
+
+/-- modifiers: `WithIANA` on a message with two IA_NAs extends the first one in place;
+`WithIATA` on a message without IA_TA appends a new one; `Del` drops both IA_NAs -/
+def exTwoIANA : Msg6 := .msg mtAdvertise [1, 2, 3]
+  [.clientID (.en 1 []), .iana [0, 0, 0, 1] 5 6 [.status 0 []], .elapsed 0, .iana [0, 0, 0, 2] 0 0 []]
+
+example : applyMod exTwoIANA (.ianaAddrs [⟨ip 9, 1, 2, []⟩]) = .ok (.msg mtAdvertise [1, 2, 3]
+    [.clientID (.en 1 []), .iana [0, 0, 0, 1] 5 6 [.status 0 [], .iaaddr (ip 9) 1 2 []], .elapsed 0,
+     .iana [0, 0, 0, 2] 0 0 []]) := by
+  refine (C16_mod_ianaAddrs _ _ _ _).2.2.1 [.clientID (.en 1 [])] _ _ _ _ _ ?_ rfl ?_
+  · intro o ho hc
+    simp [exTwoIANA] at ho
+    rcases ho with rfl | rfl | rfl | rfl <;> first | rfl | (simp [Opt6.code, ocIANA] at hc)
+  · intro y hy; simp at hy; subst hy; decide
+
+example : applyMod exTwoIANA (.iata [7, 7, 7, 7] [⟨ip 9, 1, 2, []⟩]) = .ok (.msg mtAdvertise [1, 2, 3]
+    [.clientID (.en 1 []), .iana [0, 0, 0, 1] 5 6 [.status 0 []], .elapsed 0, .iana [0, 0, 0, 2] 0 0 [],
+     .iata [7, 7, 7, 7] [.iaaddr (ip 9) 1 2 []]]) := by
+  refine (C16_mod_iata _ _ _ _ _).2.1 ?_ rfl
+  intro o ho hc
+  simp [exTwoIANA] at ho
+  rcases ho with rfl | rfl | rfl | rfl <;> simp [Opt6.code, ocIATA] at hc
+
+example : exTwoIANA.delOption ocIANA = .msg mtAdvertise [1, 2, 3] [.clientID (.en 1 []), .elapsed 0] := by
+  simp [exTwoIANA, Msg6.delOption, del, Opt6.code, ocIANA]
+
+example : applyMod (.msg mtSolicit [] [.generic ocIATA [1]]) (.iata [] []) = .panic := by
+  refine (C16_mod_iata _ _ _ _ _).2.2.2 ?_
+  intro h
+  have := h (.generic ocIATA [1]) (by simp) rfl
+  simp [Opt6.isIATA] at this
 
 end Examples
 
